@@ -161,6 +161,8 @@ trait Cell: Send + Sync + 'static {
 }
 
 const ABORT_MSG: &str = "zv-abort";
+/// schedule entries from here on mean "a whole operation of thread (entry - WHOLE_OP)"
+const WHOLE_OP: usize = 1000;
 
 fn worker<C: Cell>(cell: Arc<C>, baton: Arc<Baton>, tid: usize) {
     let b2 = baton.clone();
@@ -386,8 +388,21 @@ fn controlled_run<C: Cell>(
         true
     };
 
-    for &t in sched {
-        if t < n { turn(t, &mut out, &mut owner, watch); }
+    for &e in sched {
+        if e >= WHOLE_OP {
+            // 1000 + t: thread t runs until it is between operations again (finishes the operation it is in,
+            // or performs its next operation completely)
+            let t = e - WHOLE_OP;
+            if t < n {
+                let mut guard = 0;
+                loop {
+                    if !turn(t, &mut out, &mut owner, watch) { break; }
+                    let mid = { baton.m.lock().unwrap().mid[t] };
+                    guard += 1;
+                    if !mid || out.aborted || guard > 10_000 { break; }
+                }
+            }
+        } else if e < n { turn(e, &mut out, &mut owner, watch); }
         if out.aborted { break; }
     }
     // drain: run every thread to the end of its program, lowest id first
@@ -439,7 +454,7 @@ fn controlled_run<C: Cell>(
 // ------------------------------------------------------------------------------------------
 // cells
 // ------------------------------------------------------------------------------------------
-struct LfCell { pool: LockFreeMemoryPool, size: usize, base: usize }
+struct LfCell { pool: LockFreeMemoryPool, size: usize, base: usize, zero: bool }
 impl Cell for LfCell {
     type H = (NonNull<u8>, u64);
     fn alloc(&self) -> Result<(Self::H, u64), String> {
@@ -448,7 +463,9 @@ impl Cell for LfCell {
             Err(e) => Err(e.to_string()),
         }
     }
-    fn free(&self, h: Self::H) { let _ = self.pool.deallocate(h.0, self.size); }
+    fn free(&self, h: Self::H) {
+        let _ = if self.zero { self.pool.deallocate_with_zero(h.0, self.size) } else { self.pool.deallocate(h.0, self.size) };
+    }
     fn scribble(&self, h: &mut Self::H, v: u64) { unsafe { *(h.0.as_ptr() as *mut u32) = v as u32; } }
 }
 unsafe impl Send for LfCell {}
@@ -568,18 +585,23 @@ fn norm_site(site: u32) -> u64 {
     match site / 10 { 1 | 3 | 5 | 7 => d, _ => 10 + d }
 }
 
-fn emit_coq(cx: &mut Ctx, kind: u32, bsize: u64, cap: u64, n: usize, out: &RunOut, fin: [u64; 3], free: &Option<Vec<u64>>, cj: &Value, force: bool) {
+fn emit_coq(cx: &mut Ctx, kind: u32, bsize: u64, cap: u64, n: usize, out: &RunOut, fin: [u64; 3], free: &Option<Vec<u64>>, stats: &[u64], zero_size: Option<u64>, cj: &Value, force: bool) {
     if out.eff.len() > 400 { return; }
-    if !cx.room(if kind == 0 { "LF" } else { "FL" }, force) { return; }
-    let sc: Vec<String> = out.eff.iter().map(|(t, c)| format!("({}%nat, {})", t, cm_coq(c))).collect();
+    if !cx.room(if zero_size.is_some() { "LZ" } else if kind == 0 { "LF" } else { "FL" }, force) { return; }
+    let sc: Vec<String> = out.eff.iter().map(|(t, c)| format!("({}%nat, {})", t, match (c, zero_size) {
+        (Cm::Push(b), Some(z)) => format!("CPushZ {} {}", b, z),
+        _ => cm_coq(c),
+    })).collect();
     let notes: Vec<u128> = out.notes.iter().flat_map(|&(_, s, v)| vec![norm_site(s) as u128, v as u128]).collect();
     let helds: Vec<String> = out.held.iter().map(|h| coq_n_list(h.iter().map(|&x| x as u128))).collect();
-    let term = format!("XTag ({}, {}, {}, {}%nat, [{}], {}, {}, {}, [{}])",
+    let term = format!("XTag2 (({}, {}, {}, {}%nat, [{}], {}, {}, {}, [{}]), {})",
         kind, bsize, cap, n, sc.join("; "), coq_n_list(notes), coq_n_list(fin.iter().map(|&x| x as u128)),
-        coq_opt(free.as_ref().map(|f| coq_n_list(f.iter().map(|&x| x as u128)))), helds.join("; "));
+        coq_opt(free.as_ref().map(|f| coq_n_list(f.iter().map(|&x| x as u128)))), helds.join("; "),
+        coq_n_list(stats.iter().map(|&x| x as u128)));
     let mut c2 = cj.clone();
     c2["impl_final"] = json!(fin.to_vec());
     c2["impl_free"] = json!(free);
+    c2["impl_stats"] = json!(stats);
     cx.shards.push(term, c2);
 }
 
@@ -595,26 +617,29 @@ fn lf_slot_size(size: usize) -> usize {
     LF_BIN_SIZES.iter().cloned().find(|&b| a <= b).unwrap_or(a)
 }
 
-/// LockFreeMemoryPool under a controlled schedule.
-fn run_lf(cx: &mut Ctx, size: usize, slots: usize, progs: &[Vec<Op>], sched: &[usize], force: bool) {
+/// LockFreeMemoryPool under a controlled schedule.  `zero`: the pool is configured with zero_on_free and SIMD
+/// optimisation and every free goes through deallocate_with_zero (the block is scrubbed, then pushed).
+fn run_lf(cx: &mut Ctx, size: usize, slots: usize, zero: bool, progs: &[Vec<Op>], sched: &[usize], force: bool) {
     let cellname = "LockFreeMemoryPool/controlled";
     let bs = lf_slot_size(size);
     let cap = 8 + bs * slots;
-    let cj = case_json("LF", size, slots, progs, sched);
+    let mut cj = case_json("LF", size, slots, progs, sched);
+    if zero { cj["zero"] = json!(true); }
     cx.sum.eval(cellname, &cj.to_string(), progs.iter().filter(|p| !p.is_empty()).count() >= 2);
     let cfg = LockFreePoolConfig {
         memory_size: cap, enable_stats: true, max_cas_retries: 1000, backoff_strategy: BackoffStrategy::None,
         enable_cache_alignment: false, cache_config: None, enable_numa_awareness: false, enable_huge_pages: false,
-        huge_page_threshold: 1 << 30, enable_simd_optimization: false, zero_on_free: false,
+        huge_page_threshold: 1 << 30, enable_simd_optimization: zero, zero_on_free: zero,
     };
     let pool = match LockFreeMemoryPool::new(cfg) { Ok(p) => p, Err(e) => { cx.sum.fail(cellname, None, cj, &format!("pool creation failed: {}", e)); return; } };
     let base = pool.verif_layout().0;
-    let cell = Arc::new(LfCell { pool, size, base });
+    let cell = Arc::new(LfCell { pool, size, base, zero });
     let smap = ScribbleMap { tail: 0, base: 8, bsize: bs as u64, slots: slots as u64 };
     let c2 = cell.clone();
     let c3 = cell.clone();
     let mut fin = [0u64; 3];
     let mut free: Option<Vec<u64>> = None;
+    let mut stats: Vec<u64> = vec![];
     let mut inspect = |o: &RunOut| -> Vec<(Option<String>, String)> {
         let mut f = vec![];
         let (packed, count) = c2.pool.verif_bin_state(size).unwrap_or((0, 0));
@@ -633,6 +658,7 @@ fn run_lf(cx: &mut Ctx, size: usize, slots: usize, progs: &[Vec<Op>], sched: &[u
         if let Some(st) = c2.pool.stats() {
             let fa = st.fast_allocs.load(Ordering::SeqCst);
             let fd = st.fast_deallocs.load(Ordering::SeqCst);
+            stats = vec![fa, fd, st.cas_successes.load(Ordering::SeqCst), st.cas_failures.load(Ordering::SeqCst), st.memory_usage.load(Ordering::SeqCst)];
             if fd != o.frees { f.push((None, format!("fast_deallocs = {} after {} frees", fd, o.frees))); }
             let fresh = o.ever.len() as u64;
             if fa + fresh != o.allocs_ok { f.push((None, format!("fast_allocs {} + new blocks {} != successful allocations {}", fa, fresh, o.allocs_ok))); }
@@ -644,7 +670,8 @@ fn run_lf(cx: &mut Ctx, size: usize, slots: usize, progs: &[Vec<Op>], sched: &[u
     cx.sum.dist_max("max_steps_controlled", out.eff.len() as u64);
     if out.notes.iter().any(|&(_, s, v)| (s == vs::LF_POP_CAS || s == vs::LF_PUSH_CAS) && v == 0) { cx.sum.dist("runs_with_failed_cas"); }
     for (cl, d) in &out.fails { cx.sum.fail(cellname, cl.as_deref(), cj.clone(), d); }
-    if !out.aborted { emit_coq(cx, 0, bs as u64, cap as u64, progs.len(), &out, fin, &free, &cj, force); }
+    if zero { cx.sum.dist("lockfree_zero_on_free_runs"); }
+    if !out.aborted && !stats.is_empty() { emit_coq(cx, 0, bs as u64, cap as u64, progs.len(), &out, fin, &free, &stats, if zero { Some(size as u64) } else { None }, &cj, force); }
 }
 
 /// five-level LockFreePool under a controlled schedule.
@@ -665,12 +692,14 @@ fn run_fl(cx: &mut Ctx, size: usize, slots: usize, progs: &[Vec<Op>], sched: &[u
     let c3 = cell.clone();
     let mut fin = [0u64; 3];
     let mut free: Option<Vec<u64>> = None;
+    let mut fragv: Vec<u64> = vec![];
     let mut inspect = |o: &RunOut| -> Vec<(Option<String>, String)> {
         let mut f = vec![];
         let (packed, count) = c2.pool.verif_bin_state(size).unwrap_or((u32::MAX as u64, 0));
         let head = packed & 0xFFFF_FFFF;
         let used = c2.pool.stats().used_memory as u64;
         fin = [packed, count as u64, used];
+        fragv = vec![c2.pool.stats().fragment_size as u64];
         let owned: BTreeSet<u64> = o.held.iter().flatten().cloned().collect();
         let link = |x: u64| c2.pool.verif_read_link(x as u32).map(|v| v as u64);
         match walk_free(head as u64, u32::MAX as u64, &link, &o.ever, &owned, o.ever.len()) {
@@ -690,7 +719,7 @@ fn run_fl(cx: &mut Ctx, size: usize, slots: usize, progs: &[Vec<Op>], sched: &[u
     cx.sum.dist_max("max_steps_controlled", out.eff.len() as u64);
     if out.notes.iter().any(|&(_, s, v)| (s == vs::FL_POP_CAS || s == vs::FL_PUSH_CAS) && v == 0) { cx.sum.dist("runs_with_failed_cas"); }
     for (cl, d) in &out.fails { cx.sum.fail(cellname, cl.as_deref(), cj.clone(), d); }
-    if !out.aborted { emit_coq(cx, 1, bs as u64, cap as u64, progs.len(), &out, fin, &free, &cj, force); }
+    if !out.aborted && !fragv.is_empty() { emit_coq(cx, 1, bs as u64, cap as u64, progs.len(), &out, fin, &free, &fragv, None, &cj, force); }
 }
 
 /// Size classes of a FixedCapacityMemoryPool with max_block_size 64 and alignment 8: 8, 16, ..., 64.
@@ -923,7 +952,7 @@ fn run_case(cx: &mut Ctx, c: &Value, force: bool) {
     let (cell, size, slots, progs, sched) = parse_case(c);
     if progs.is_empty() { return; }
     match cell.as_str() {
-        "LF" => run_lf(cx, size.clamp(1, 8192), slots.clamp(1, 64), &progs, &sched, force),
+        "LF" => run_lf(cx, size.clamp(1, 8192), slots.clamp(1, 64), c["zero"].as_bool().unwrap_or(false), &progs, &sched, force),
         "FL" => run_fl(cx, size.clamp(1, 1024), slots.clamp(1, 64), &progs, &sched, force),
         "FC" => {
             let sizes: Vec<usize> = c["sizes"].as_array().map(|a| a.iter().filter_map(|x| x.as_u64().map(|v| v as usize)).collect()).unwrap_or_default();
@@ -1058,7 +1087,7 @@ fn stress_case_inproc(cx: &mut Ctx, c: &Value) {
     cx.sum.cell_status(&cell, "S-only");
     cx.sum.eval(&cell, &c.to_string(), nthr >= 2);
     let fails: Vec<String> = match cell.as_str() {
-        "stress/LockFreeMemoryPool" => stress_lf(nthr, iters, seed, size, hold),
+        "stress/LockFreeMemoryPool" => stress_lf(nthr, iters, seed, size, hold, c["zero"].as_bool().unwrap_or(false)),
         "stress/five_level::LockFreePool" => stress_fl(nthr, iters, seed, size, hold, 0),
         "stress/five_level::MutexBasedPool" => stress_fl(nthr, iters, seed, size, hold, 1),
         "stress/five_level::ThreadLocalPool" => stress_fl(nthr, iters, seed, size, hold, 2),
@@ -1093,13 +1122,15 @@ fn classify_stress(cell: &str, d: &str) -> Option<&'static str> {
     None
 }
 
-fn stress_lf(nthr: usize, iters: usize, seed: u64, size: usize, hold: usize) -> Vec<String> {
+fn stress_lf(nthr: usize, iters: usize, seed: u64, size: usize, hold: usize, zero: bool) -> Vec<String> {
     let bs = lf_slot_size(size);
     let cap = 8 + bs * (nthr * hold + 2);
     let cfg = LockFreePoolConfig { memory_size: cap, enable_stats: true, max_cas_retries: 100_000, backoff_strategy: BackoffStrategy::None,
         enable_cache_alignment: false, cache_config: None, enable_numa_awareness: false, enable_huge_pages: false, huge_page_threshold: 1 << 30,
-        enable_simd_optimization: false, zero_on_free: false };
+        enable_simd_optimization: zero, zero_on_free: zero };
     let pool = Arc::new(match LockFreeMemoryPool::new(cfg) { Ok(p) => p, Err(e) => return vec![format!("pool creation failed: {}", e)] });
+    // zero: every free goes through deallocate_with_zero (scrub, then push)
+    let give_back = move |p2: &LockFreeMemoryPool, p: NonNull<u8>| { let _ = if zero { p2.deallocate_with_zero(p, size) } else { p2.deallocate(p, size) }; };
     let base = pool.verif_layout().0;
     let own = Arc::new(Ownership::new(cap / 8 + 1));
     let okc = Arc::new(AtomicU64::new(0));
@@ -1122,10 +1153,10 @@ fn stress_lf(nthr: usize, iters: usize, seed: u64, size: usize, hold: usize) -> 
                 if s.iter().any(|&b| b != t as u8 + 1) { o2.clash.store(true, Ordering::SeqCst); *o2.detail.lock().unwrap() = format!("block contents of thread {} overwritten while it owned the block", t); }
                 o2.give((p.as_ptr() as usize - base) / 8, t);
                 fr2.fetch_add(1, Ordering::Relaxed);
-                let _ = p2.deallocate(p, size);
+                give_back(&p2, p);
             }
         }
-        for p in held { o2.give((p.as_ptr() as usize - base) / 8, t); fr2.fetch_add(1, Ordering::Relaxed); let _ = p2.deallocate(p, size); }
+        for p in held { o2.give((p.as_ptr() as usize - base) / 8, t); fr2.fetch_add(1, Ordering::Relaxed); give_back(&p2, p); }
     });
     let mut f = vec![];
     if let Err(e) = r { f.push(e); }
@@ -1495,11 +1526,51 @@ pub fn run(args: &Args) {
             // lockfree_pool.rs carves with load + compare-exchange: one more step per fresh block
             let mut sched_lf = vec![0usize; 3];
             sched_lf.extend(&sched);
-            run_lf(&mut cx, 64, 6, &[p0.clone(), p1.clone()], &sched_lf, false);
+            run_lf(&mut cx, 64, 6, false, &[p0.clone(), p1.clone()], &sched_lf, false);
             run_fl(&mut cx, 64, 6, &[p0.clone(), p1.clone()], &sched, false);
             if i % (stride * 3) == 0 { run_fc(&mut cx, if i % 2 == 0 { &[40] } else { &[40, 17] }, false, 4, &[vec![Op::Alloc, Op::Alloc, Op::Free(0), Op::Free(0), Op::Alloc], p1.clone()], &sched[10..], false); }
         }
         cx.sum.dist_max("enumerated_interleavings", (all.len() / stride) as u64);
+    }
+    // 2b. stalled-operation windows: thread 0 prepares a free list, starts an operation and stops after k steps;
+    //     thread 1 then runs a whole program (drain and refill of the list, random programs); thread 0 finishes.
+    //     This is where a stale (head, link) pair meets a list that was emptied and rebuilt.
+    {
+        let nwin = if args.thorough { 60 } else { 10 };
+        for w in 0..nwin {
+            let p0 = vec![Op::Alloc, Op::Alloc, Op::Free(1), Op::Free(0), if w % 3 == 2 { Op::Free(0) } else { Op::Alloc }, Op::Alloc];
+            let p1: Vec<Op> = match w % 5 {
+                0 => vec![Op::Alloc, Op::Alloc, Op::Alloc, Op::Free(2), Op::Free(0)],
+                1 => vec![Op::Alloc, Op::Alloc, Op::Free(1), Op::Alloc, Op::Free(0), Op::Free(0)],
+                _ => gen_prog(&mut rng, 6, false, 6),
+            };
+            let nsetup = if w % 3 == 2 { 3 } else { 4 };
+            for k in 1..=4usize {
+                let mut sched = vec![WHOLE_OP; nsetup];
+                sched.extend(std::iter::repeat(0).take(k));
+                sched.extend(std::iter::repeat(WHOLE_OP + 1).take(p1.len()));
+                let progs = [p0.clone(), p1.clone()];
+                run_lf(&mut cx, 64, 6, false, &progs, &sched, false);
+                run_fl(&mut cx, 64, 6, &progs, &sched, false);
+                run_fc(&mut cx, if w % 2 == 0 { &[40] } else { &[40, 40, 17] }, false, 6, &progs, &sched, false);
+                if w % 2 == 1 { run_lf(&mut cx, 24, 6, true, &progs, &sched, false); }
+                cx.sum.dist("stalled_operation_windows");
+            }
+        }
+    }
+    // 2c. LockFreeMemoryPool with zero_on_free + SIMD optimisation, frees through deallocate_with_zero: three and more
+    //     blocks of one class are freed and allocated again (the scrub must not reach a block that is already listed)
+    {
+        let refill = vec![Op::Alloc, Op::Alloc, Op::Alloc, Op::Free(0), Op::Free(0), Op::Free(0), Op::Alloc, Op::Alloc, Op::Alloc, Op::Free(1), Op::Alloc];
+        for &size in &[1usize, 3, 24, 64, 200] {
+            run_lf(&mut cx, size, 6, true, &[refill.clone()], &[], false);
+            let p1 = vec![Op::Alloc, Op::Alloc, Op::Free(0), Op::Free(0), Op::Alloc, Op::Alloc, Op::Free(1)];
+            let reps = if args.thorough { 12 } else { 3 };
+            for _ in 0..reps {
+                let sched = gen_sched(&mut rng, 2, 90);
+                run_lf(&mut cx, size, 8, true, &[refill.clone(), p1.clone()], &sched, false);
+            }
+        }
     }
     // 3. random programs and schedules
     let nrand = if args.thorough { 6000 } else { 800 };
@@ -1511,7 +1582,7 @@ pub fn run(args: &Args) {
         let progs: Vec<Vec<Op>> = (0..n).map(|_| gen_prog(&mut rng, plen, false, slots)).collect();
         let sched = gen_sched(&mut rng, n, plen * 6 * n);
         match k % 4 {
-            0 => run_lf(&mut cx, size, slots, &progs, &sched, false),
+            0 => run_lf(&mut cx, size, slots, k % 12 == 8, &progs, &sched, false),
             1 => run_fl(&mut cx, size.min(1000), slots, &progs, &sched, false),
             2 => {
                 let sizes: Vec<usize> = match rng.below(3) { 0 => vec![size.min(64)], 1 => vec![size.min(64), *rng.pick(&[1usize, 9, 24, 64])], _ => vec![*rng.pick(&[8usize, 16]), *rng.pick(&[17usize, 33]), *rng.pick(&[50usize, 64])] };
@@ -1532,7 +1603,8 @@ pub fn run(args: &Args) {
         let reps = if args.thorough { 6 } else { 2 };
         for rep in 0..reps {
             let c = json!({"cell": cell, "threads": if rep % 2 == 0 { 4 } else { 3 }, "iters": iters, "seed": args.seed * 100 + i as u64 * 10 + rep as u64,
-                           "size": if rep % 2 == 0 { 64 } else { 24 }, "hold": if rep % 2 == 0 { 2 } else { 5 }, "cache": if rep % 2 == 0 { 1 } else { 3 }});
+                           "size": if rep % 2 == 0 { 64 } else { 24 }, "hold": if rep % 2 == 0 { 2 } else { 5 }, "cache": if rep % 2 == 0 { 1 } else { 3 },
+                           "zero": rep % 2 == 1});
             stress_case(&mut cx, &c);
         }
     }
